@@ -64,6 +64,7 @@ def run(tier, seed, procs):
     N, K = (4, 3) if quick else (7, 4)
     tasks = [(MOD, n, lay, K) for n in range(0, N + 1) for lay in gen.LAYOUTS]
     cols = drive.pool_map(drive.shard_enum_story, tasks, procs)
+    cols += drive.pool_map(drive.shard_enum_story_big, [(MOD, 3, 270, 2 if quick else 3)], 1)
     kw = dict(allow_no_slug=True, kinds=gen.STORY_KINDS, faults='some', rich=True, degenerate=True)
     shards, per = (8, 400) if quick else (16, 12000)
     cols += drive.pool_map(drive.shard_hyp_steps,
